@@ -23,7 +23,7 @@ def varIsList (var : XmlVar) : Bool := var.listElement || var.tokens
 
 /-- the test `DictDecoder.find_var` applies to one var -/
 def varMatches (key : Str) (value : J) (var : XmlVar) : Bool :=
-  if var.localName = key then value.isArr == varIsList var
+  if var.localName = key then value.isNull || value.isArr == varIsList var   -- `value is None or …`
   else if wrapperName var.toVarCore = some key then
     match value with
     | .obj kvs =>
@@ -350,6 +350,8 @@ def bindPairsWith (e : BEnv) (rec : Rec) (Γ : Ctx) (cfg : ParserConfig) (m : Xm
       match unwrapFor var key value with
       | .error err => ND.fail err
       | .ok value =>
+        -- `if value is None and var.list_element: continue` : a null stands for no items
+        if value.isNull && var.listElement then bindPairsWith e rec Γ cfg m vars rest params else
         ND.bind (bindValueWith e rec Γ cfg m var value) fun v =>
           if var.init then bindPairsWith e rec Γ cfg m vars rest (params.set var.name v)
           else
